@@ -20,7 +20,7 @@ from types import SimpleNamespace
 import z3
 
 from . import loader, sym
-from .explore import Budget, Path, Stats, explore, model_value
+from .explore import Budget, Path, Stats, explore, model_value, _looks_like_proxy_error
 from .sym import PathInfeasible, SymBool, SymComplex, SymNum, Unsupported
 
 REGISTRY: dict = {}
@@ -444,7 +444,7 @@ def verify(c: Contract, variant=None, deadline_s=600):
             raise
         except BaseException as e:
             msg = str(e)
-            if isinstance(e, (TypeError, AttributeError, ValueError)) and ("Sym" in msg or "z3" in msg.lower()):
+            if _looks_like_proxy_error(e, msg):
                 raise Unsupported("%s: %s" % (type(e).__name__, msg[:200]))
             return _CallOutcome(a, old, "exc", e)
         return _CallOutcome(a, old, "ret", r)
